@@ -190,7 +190,7 @@ Fixpoint search_from (s : str) (off : nat) : option (nat * nat * nat) :=
   end.
 
 (* _get_tag_name: (None | Some name, index).
-   [fixed] = false: the code before the repair of finding C05-F3 (the words 'extend here' anywhere
+   [fixed] = false: the code before fix commit 784517a (finding C05-F3) (the words 'extend here' anywhere
    in the row reject the row); [fixed] = true: the repaired code looks for the words in the name part
    (group 2) only, and in the whole row when the row does not have the shape of a node line. *)
 Definition get_tag_name (fixed : bool) (row : str) : option str * Z :=
@@ -372,7 +372,7 @@ Definition desc_ok (d : option str) : bool :=
 Definition wiki_attr_ok (a : attrs) : bool :=
   attr_ok a && wiki_text_ok (format_tag_attributes (fun _ => false) a).
 
-(* reserved literals of the reader.  Before the repair of C05-F3 a row containing 'extend here'
+(* reserved literals of the reader.  Before fix commit 784517a (C05-F3) a row containing 'extend here'
    anywhere is refused; after it only a NAME containing the words is.  The zero-width-space entity is
    deleted from the row before the name expression runs (the proofs assume it is absent). *)
 Definition row_free_of_reserved (fixed : bool) (n line : str) : bool :=
@@ -381,7 +381,7 @@ Definition row_free_of_reserved (fixed : bool) (n line : str) : bool :=
   && negb (contains s_zw (remove_nowiki line)).
 
 (* xml2schema._parse_node, description part: the element text ('' = no description element).
-   [fixed] = true is the repair of C05-F1: outer white space is dropped as the MediaWiki and TSV
+   [fixed] = true is fix commit 4719ff8 (C05-F1), the current code: outer white space is dropped as the MediaWiki and TSV
    readers do, and a description of white space only counts as absent. *)
 Definition xml_read_desc (fixed : bool) (text : str) : option str :=
   match text with
@@ -396,10 +396,53 @@ Definition xml_read_desc (fixed : bool) (text : str) : option str :=
    compares the lines the real reader sees with the LF-separated lines of the saved text. *)
 Definition open_file_lines (text : str) : list str := split_on ch_nl text.
 
-(* xml2schema._get_element_tag_value for a name element ('' = no text); [fixed] = true is the repair of
-   finding C05-F5 (names lose their outer white space, as in a MediaWiki line) *)
+(* xml2schema._get_element_tag_value for a name element ('' = no text); [fixed] = true is fix commit 4b4f5c6
+   (finding C05-F5), the current code (names lose their outer white space, as in a MediaWiki line) *)
 Definition xml_read_name (fixed : bool) (text : str) : str := if fixed then strip text else text.
 
 (* what may stand inside [..]: DescOK without the requirements the repaired XML reader guarantees *)
 Definition desc_text_ok (d : option str) : bool :=
   match d with None => true | Some s => wiki_text_ok s end.
+
+(* ------------------------------------------------------------------ the tag section of a merged MediaWiki file *)
+
+(* a tag entry as the schema holds it: the terms of its long name, its attributes, its description *)
+Record tag_item : Set := mkItem { ti_path : list str; ti_attrs : attrs; ti_desc : option str }.
+
+(* Schema2Base._output_tags (merged save: level = number of slashes of the long name, no level adjustment) with
+   Schema2Wiki._write_tag_entry: one line per entry, in the order of the entry list; the writer takes the last
+   term of the long name (tag.split('/')[-1]) -- here the last element of the path *)
+Definition write_tag_section (disallowed : str -> bool) (es : list tag_item) : list (option str) :=
+  map (fun e => write_tag_line disallowed (last (ti_path e) []) (length (ti_path e) - 1) (ti_attrs e) (ti_desc e)) es.
+
+(* SchemaLoaderWiki._read_schema on the lines of the section of a MERGED file (no rooted re-parenting, level_adj
+   stays 0): a root line starts a new tree, any other line keeps the first `level` terms of the previous tag's
+   long name; a level that skips a generation, or any line the per-line reader rejects, fails the load *)
+Fixpoint read_tag_section (fixed : bool) (parent_tags : list str) (lines : list str) : res (list tag_item) :=
+  match lines with
+  | [] => Ok []
+  | l :: rest =>
+      let* p := read_tag_line fixed l in
+      match p with
+      | None => read_tag_section fixed parent_tags rest
+      | Some r =>
+          if p_root r then
+            let name := [p_name r] in
+            let* items := read_tag_section fixed name rest in
+            Ok (mkItem name (p_attrs r) (p_desc r) :: items)
+          else if Nat.ltb (length parent_tags) (p_level r) then Exn HedFileError
+          else
+            let name := firstn (p_level r) parent_tags ++ [p_name r] in
+            let* items := read_tag_section fixed name rest in
+            Ok (mkItem name (p_attrs r) (p_desc r) :: items)
+      end
+  end.
+
+(* the entry list is parents-first: every entry directly follows its parent or a node of its parent's subtree *)
+Fixpoint paths_parents_first (previous : list str) (paths : list (list str)) : Prop :=
+  match paths with
+  | [] => True
+  | p :: rest =>
+      p <> [] /\ length p - 1 <= length previous /\ removelast p = firstn (length p - 1) previous
+      /\ paths_parents_first p rest
+  end.
